@@ -181,6 +181,32 @@ Proof. intros Ht Htr H1 Hk E idx. split; [apply argsort_perm|]. unfold eig_diag 
   rewrite L in E.
   apply (select_LM (fun a b => leb a b = true)) in E; auto. apply argsort_ascending; auto. Qed.
 
+(* repaired dense / Krylov rules (eig_sorted): eigenpairs, and selection by the order used for sorting - with [leb] the
+   comparison of magnitudes this is the property's clause: 'LM' = the k largest, 'SM' = the k smallest in magnitude *)
+Theorem eig_sorted_pairs leb n m A w V k wh o : EigSpec n m A w V -> eig_sorted leb m w V k wh = Some o -> EigPairs n A o.
+Proof. intros HS E. unfold eig_sorted in E. eapply slice_pairs; [|exact E]. apply take_pairs; [apply EigSpec_pairs; exact HS|].
+  intros x Hx. cbn [ek]. apply (Permutation_in _ (argsort_perm leb m w)) in Hx. apply in_seq in Hx. lia. Qed.
+Theorem eig_sorted_selects_LM leb m (w : nat -> R) V k o : (forall a b, leb a b = true \/ leb b a = true) ->
+  (forall a b c, leb a b = true -> leb b c = true -> leb a c = true) -> (1 <= k)%nat -> (k <= m)%nat ->
+  eig_sorted leb m w V (Z.of_nat k) LM = Some o ->
+  let idx := argsort leb m w in
+  Permutation idx (seq 0 m) /\ ek o = k /\ (forall j, (j < k)%nat -> ew o j = w (nth (m - k + j) idx 0%nat)) /\
+  forall i j, (i < m - k)%nat -> (j < k)%nat -> leb (w (nth i idx 0%nat)) (ew o j) = true.
+Proof. intros Ht Htr H1 Hk E idx. split; [apply argsort_perm|]. unfold eig_sorted in E. fold idx in E.
+  assert (L : length idx = m) by (apply argsort_length).
+  change (take idx (mkeout m w V)) with (mkeout (length idx) (fun j => w (nth j idx 0%nat)) (fun i j => V i (nth j idx 0%nat))) in E.
+  rewrite L in E. apply (select_LM (fun a b => leb a b = true)) in E; auto. apply argsort_ascending; auto. Qed.
+Theorem eig_sorted_selects_SM leb m (w : nat -> R) V k o : (forall a b, leb a b = true \/ leb b a = true) ->
+  (forall a b c, leb a b = true -> leb b c = true -> leb a c = true) -> (1 <= k)%nat -> (k <= m)%nat ->
+  eig_sorted leb m w V (Z.of_nat k) SM = Some o ->
+  let idx := argsort leb m w in
+  Permutation idx (seq 0 m) /\ ek o = k /\ (forall j, (j < k)%nat -> ew o j = w (nth j idx 0%nat)) /\
+  forall i j, (k <= i)%nat -> (i < m)%nat -> (j < k)%nat -> leb (ew o j) (w (nth i idx 0%nat)) = true.
+Proof. intros Ht Htr H1 Hk E idx. split; [apply argsort_perm|]. unfold eig_sorted in E. fold idx in E.
+  assert (L : length idx = m) by (apply argsort_length).
+  change (take idx (mkeout m w V)) with (mkeout (length idx) (fun j => w (nth j idx 0%nat)) (fun i j => V i (nth j idx 0%nat))) in E.
+  rewrite L in E. apply (select_SM (fun a b => leb a b = true)) in E; auto. apply argsort_ascending; auto. Qed.
+
 (* ---------- triangular rule ---------- *)
 Lemma sum_sub m (f g : nat -> R) : sum m (fun i => f i - g i) = sum m f - sum m g.
 Proof. induction m; simpl; [ring|rewrite IHm; ring]. Qed.
@@ -250,6 +276,35 @@ Theorem eig_tri_pairs_oracle leb solve n U k wh o : upper n U -> SolveSpec solve
   eig_tri leb solve (fun x => x) n U k wh = Some o -> EigPairs n U o.
 Proof. intros HU HS E. unfold eig_tri in E. eapply slice_pairs; [|exact E]. apply take_pairs.
   - apply EigSpec_pairs. apply tri_eigvecs_spec; assumption.
+  - intros x Hx. cbn [ek]. apply (Permutation_in _ (argsort_perm leb n _)) in Hx. apply in_seq in Hx. lia. Qed.
+
+(* repaired rule for LOWER triangular operators *)
+Definition lower (n : nat) (L : fm) := forall r c, (r < c)%nat -> (c < n)%nat -> L r c = r0.
+Lemma sum_shift' n (f : nat -> R) : sum (S n) f = f 0%nat + sum n (fun i => f (S i)).
+Proof. induction n as [|n IH]; [cbn; ring|]. change (sum (S (S n)) f) with (sum (S n) f + f (S n)). rewrite IH. cbn [sum]. ring. Qed.
+Lemma sum_rev n (f : nat -> R) : sum n f = sum n (fun c => f (n - 1 - c)%nat).
+Proof. induction n as [|n IH]; [reflexivity|]. rewrite (sum_shift' n (fun c => f (S n - 1 - c)%nat)).
+  replace (S n - 1 - 0)%nat with n by lia. rewrite (sum_ext n (fun i => f (S n - 1 - S i)%nat) (fun c => f (n - 1 - c)%nat)) by (intros; f_equal; lia).
+  rewrite <- IH. cbn [sum]. ring. Qed.
+Theorem tri_lower_eigvecs_spec n L : lower n L -> (forall a b, (a < b)%nat -> (b < n)%nat -> L a a <> L b b) ->
+  EigSpec n n L (fun i => L i i) (flip n (tri_eigvecs usolve (fun x => x) (flip n L))).
+Proof. intros HL Hd. set (U := flip n L).
+  assert (HU : upper n U) by (intros r c Hc Hr; unfold U, flip; apply HL; lia).
+  assert (HdU : forall a b, (a < b)%nat -> (b < n)%nat -> U a a <> U b b).
+  { intros a b Ha Hb E. unfold U, flip in E. apply (Hd (n - 1 - b) (n - 1 - a))%nat; [lia|lia|symmetry; exact E]. }
+  destruct (tri_eigvecs_spec usolve n U HU (usolve_SolveSpec n U HU HdU)) as [HE HZ]. set (W := tri_eigvecs usolve (fun x => x) U) in *.
+  split.
+  - intros r i Hr Hi. rewrite mmul_dg_r by auto. unfold mmul. rewrite sum_rev.
+    rewrite (sum_ext n _ (fun c => U (n - 1 - r)%nat c * W c (n - 1 - i)%nat)).
+    + change (sum n (fun c => U (n - 1 - r)%nat c * W c (n - 1 - i)%nat)) with (mmul n U W (n - 1 - r)%nat (n - 1 - i)%nat).
+      rewrite HE by lia. rewrite mmul_dg_r by lia. unfold flip at 1. f_equal. unfold U, flip. f_equal; lia.
+    + intros c Hc. unfold U, flip. f_equal; [f_equal; lia|f_equal; lia].
+  - intros j Hj Hz. apply (HZ (n - 1 - j)%nat ltac:(lia)). intros i Hi. specialize (Hz (n - 1 - i)%nat ltac:(lia)). unfold flip in Hz.
+    replace (n - 1 - (n - 1 - i))%nat with i in Hz by lia. exact Hz. Qed.
+Theorem eig_tri_lower_pairs leb n L k wh o : lower n L -> (forall a b, (a < b)%nat -> (b < n)%nat -> L a a <> L b b) ->
+  eig_tri_lower leb usolve (fun x => x) n L k wh = Some o -> EigPairs n L o.
+Proof. intros HL Hd E. unfold eig_tri_lower in E. eapply slice_pairs; [|exact E]. apply take_pairs.
+  - apply EigSpec_pairs. apply tri_lower_eigvecs_spec; assumption.
   - intros x Hx. cbn [ek]. apply (Permutation_in _ (argsort_perm leb n _)) in Hx. apply in_seq in Hx. lia. Qed.
 
 (* independence of the vectors returned by the dense rules: from an invertible V, distinct selected columns *)
